@@ -124,7 +124,7 @@ def run(tier, seed):
                 "unchanged. distinct_nontrivial = distinct circuits with >= 2 components and an ancilla.",
         "exhaustive": True,
         "bounds": {"n": n, "alphabet": len(alpha), "depth": depth, "mpl_every": mpl_every},
-        "assumptions": ["barrier([]) is outside the alphabet (statement undecided)", "matplotlib Agg backend"],
+        "assumptions": ["matplotlib Agg backend"],
     }
     return acc, meta
 
